@@ -81,6 +81,38 @@ func init() {
 		Technique: "deductive verification: token-conservation contracts (returned slice = bytes moved over, cap==len, buffer frame) on the lexers' Next and shift functions; VCs discharged by z3/cvc5",
 	})
 	registerProp(&PropSpec{
+		ID: "C16", Title: "Number/Dimension/URL/data-URI/media-type helpers match their definitions",
+		Sel: []Sel{
+			{Pattern: "parse.Number", Levels: "SF"}, {Pattern: "parse.Dimension", Levels: "SF"},
+			{Pattern: "parse.Mediatype", Levels: "S"}, {Pattern: "parse.DataURI", Levels: "S"}, {Pattern: "parse.QuoteEntity", Levels: "S"},
+			{Pattern: "parse.EncodeURL", Levels: "S"}, {Pattern: "parse.DecodeURL", Levels: "S"}, {Pattern: "parse.AppendEscape", Levels: "S"},
+			{Pattern: "parse.EqualFold", Levels: "SF"}, {Pattern: "parse.ToLower", Levels: "SF"}, {Pattern: "parse.Copy", Levels: "SF"},
+			{Pattern: "parse.TrimWhitespace", Levels: "SF"}, {Pattern: "parse.IsAllWhitespace", Levels: "SF"},
+			{Pattern: "parse.IsWhitespace", Levels: "SF"}, {Pattern: "parse.IsNewline", Levels: "SF"},
+			{Pattern: "css.ToHash", Levels: "SF"}, {Pattern: "html.ToHash", Levels: "SF"},
+			{Pattern: "css.Hash.*", Levels: "S"}, {Pattern: "html.Hash.*", Levels: "S"},
+		},
+		NotDecided: []string{
+			"EncodeURL/DecodeURL byte-for-byte functional behaviour and agreement with net/url",
+			"DataURI payload equality with encoding/base64 and Mediatype agreement with mime.ParseMediaType (external oracles; only memory safety is proved)",
+			"completeness of the ToHash tables (every listed name hashes to its constant); soundness is proved",
+		},
+		Technique: "deductive verification: Number(b) == closed-form longest-prefix spec over axiomatised digit-run ends; reference-definition postconditions for EqualFold/ToLower/TrimWhitespace/IsAllWhitespace and the whitespace tables; hash soundness; zero-annotation bounds obligations for the remaining helpers; VCs discharged by z3/cvc5",
+	})
+	registerProp(&PropSpec{
+		ID: "C17", Title: "Whitespace, entity and attribute normalisation preserves meaning",
+		Sel: []Sel{
+			{Pattern: "parse.ReplaceMultipleWhitespace", Levels: "S"}, {Pattern: "parse.replaceEntities", Levels: "S"}, {Pattern: "parse.ReplaceEntities", Levels: "S"},
+			{Pattern: "html.EscapeAttrVal", Levels: "SF"}, {Pattern: "xml.EscapeAttrVal", Levels: "SF"}, {Pattern: "xml.EscapeCDATAVal", Levels: "SF"},
+		},
+		NotDecided: []string{
+			"decoded-text preservation and idempotence of ReplaceEntities (HTML's entity table is an external oracle)",
+			"ReplaceMultipleWhitespace functional result (every maximal run becomes one space/newline) and ReplaceMultipleWhitespaceAndEntities (its obligations are not discharged: not claimed)",
+			"round trip of the escaped value through the html/xml lexers (the sufficient local condition 'no raw quote inside the quoted value' is proved instead)",
+		},
+		Technique: "deductive verification: in-place compaction index invariants, never-longer postcondition of replaceEntities under the stated map assumption, exact buffer sizing of the Escape* functions by a counting invariant (cnt spec function, lemmas proved by induction), no-raw-quote postcondition; VCs discharged by z3/cvc5",
+	})
+	registerProp(&PropSpec{
 		ID: "C10", Title: "JSON parser accepts every valid document and reproduces it",
 		Sel: []Sel{{Pattern: "json.Parser.*", Levels: "STF"}, {Pattern: "json.NewParser", Levels: "S"}},
 		NotDecided: []string{"every document accepted by encoding/json is accepted (needs induction over the JSON grammar against the iterative state machine)"},
